@@ -5,6 +5,25 @@
  *   mt_workload <seed> <threads> <iters> <rng: default|internal> <out.ndjson>                   */
 #include "common.h"
 #include <pthread.h>
+#include <stddef.h>
+#include <linux/filter.h>
+#include <linux/seccomp.h>
+#include <sys/prctl.h>
+#include <sys/syscall.h>
+/* "default-fallback": getrandom() answers ENOSYS (old kernel, sandbox policy), so the default generator serves every thread from its
+ * shared /dev/urandom descriptor */
+static int deny_getrandom(void) {
+    struct sock_filter flt[] = {
+        BPF_STMT(BPF_LD | BPF_W | BPF_ABS, (unsigned) offsetof(struct seccomp_data, nr)),
+        BPF_JUMP(BPF_JMP | BPF_JEQ | BPF_K, __NR_getrandom, 0, 1),
+        BPF_STMT(BPF_RET | BPF_K, SECCOMP_RET_ERRNO | (ENOSYS & SECCOMP_RET_DATA)),
+        BPF_STMT(BPF_RET | BPF_K, SECCOMP_RET_ALLOW) };
+    struct sock_fprog prog = { (unsigned short) (sizeof flt / sizeof flt[0]), flt };
+    return prctl(PR_SET_NO_NEW_PRIVS, 1, 0, 0, 0) == 0 && prctl(PR_SET_SECCOMP, SECCOMP_MODE_FILTER, &prog) == 0;
+}
+#define NDRAW 3000
+static uint64_t drawn[16][NDRAW][2]; static int fallback_mode;
+static int cmp_u128(const void *a, const void *b) { return memcmp(a, b, 16); }
 
 #define NOPS 14
 #define MAXT 16
@@ -45,6 +64,9 @@ static void *worker(void *arg) {
         unsigned char s[32]; crypto_core_ed25519_scalar_random(s); unsigned char pk[32], sk[32]; crypto_box_keypair(pk, sk);
         char hex[65]; sodium_bin2hex(hex, sizeof hex, rb, 32);
     }
+    /* many small requests at once: what each thread receives is kept and compared afterwards (a repeated or all-zero 16-byte block
+     * has probability 2^-100 with a working generator) */
+    if (fallback_mode) for (int i = 0; i < NDRAW; i++) { unsigned char rb[32]; randombytes_buf(rb, 32); memcpy(drawn[t][i], rb + (i & 1) * 16, 16); }
     return NULL;
 }
 int main(int argc, char **argv) {
@@ -53,6 +75,8 @@ int main(int argc, char **argv) {
     if (n > MAXT) n = MAXT;
     if (!strcmp(argv[4], "internal")) randombytes_set_implementation(&randombytes_internal_implementation);
     v_open(argv[5]);
+    int denied = -1;
+    if (!strcmp(argv[4], "default-fallback")) { fallback_mode = 1; denied = deny_getrandom(); }       /* BEFORE sodium_init: the source is chosen once */
     if (sodium_init() < 0) return 3;
     for (int t = 0; t < n; t++) ops(t, expect[t]);          /* sequential reference */
     /* "default-closed": the application closed the generator after initialisation (documented, rarely needed); the threads' next
@@ -63,6 +87,11 @@ int main(int argc, char **argv) {
     for (int t = 0; t < n; t++) pthread_join(th[t], NULL);
     for (int t = 0; t < n; t++) for (int k = 0; k < NOPS; k++)
         fprintf(v_out, "{\"e\":\"mt\",\"t\":%d,\"op\":%d,\"iters\":%d,\"equal\":%d,\"rng\":\"%s\"}\n", t, k, iters, results[t][k], argv[4]);
+    if (fallback_mode) { static uint64_t all[16 * NDRAW][2]; size_t m = 0; long dup = 0, zero = 0;
+        for (int t = 0; t < n; t++) for (int i = 0; i < NDRAW; i++) { all[m][0] = drawn[t][i][0]; all[m][1] = drawn[t][i][1]; m++; }
+        qsort(all, m, 16, cmp_u128);
+        for (size_t i = 0; i < m; i++) { zero += all[i][0] == 0 && all[i][1] == 0; if (i && !memcmp(all[i], all[i - 1], 16)) dup++; }
+        fprintf(v_out, "{\"e\":\"mtrand\",\"getrandom_denied\":%s,\"blocks\":%zu,\"repeated\":%ld,\"all_zero\":%ld}\n", denied == 1 ? "true" : "false", m, dup, zero); }
     v_close();
     return 0;
 }
